@@ -6,37 +6,65 @@ props = [json.loads(l) for l in open(os.path.join(HERE, "properties.jsonl"))]
 
 CLAIMED = {
     "C01": ("runtime monitor: generated enum corpus x hostile input classes, lock-step reference parser (Rust twin + python re-check)",
-            "Hundreds to thousands of generated EnumString enums over the whole attribute space, each driven with 1-3k inputs "
-            "(declared spellings, all/sampled case flips, one-edit neighbours, padded, disabled/default names, re-cased "
-            "identifiers, look-alikes, random, 4 KiB); every from_str and try_from result (variant, payload, error) is compared "
-            "with an independent reference parser; sampled events are re-checked by a second python implementation.",
-            "Not exhaustive over programs/strings; trusts std derives and the generator's rendering; spelling non-overlap is checked by the generator.",
-            "DESIGN.md §7 C01"),
-    "C12": ("runtime monitor: exhaustive 2^k case-flip and Unicode look-alike inputs against a hand-written ASCII-fold reference parser",
-            "Systematic grid {enum flag} x {variant flag absent/bare/=true/=false} x spelling classes (ASCII, non-ASCII, Kelvin/long-s/"
-            "dotless-i/sharp-s) plus seeded random enums; all 2^k flips (k<=10 quick, 12 thorough) of every spelling, look-alike "
-            "substitutions and Unicode case mappings are parsed and compared with the reference parser.",
-            "Flip sets are exhaustive only up to k letters per spelling; look-alike table is finite.",
-            "DESIGN.md §7 C12"),
-    "C18": ("runtime monitor: logging user error function + reference parser; error value and call log checked per input",
-            "Random enums without default variant with custom error types (plain, module path, generic, boxed dyn Error) and a "
-            "control group; for every input the Err value must equal f(s) for the exact input and the function's call log must "
-            "be [s] on rejection and empty on acceptance; includes use_phf enums; associated error types checked by annotation.",
-            "Call log is thread-local inside the corpus's own function; not exhaustive over inputs.",
-            "DESIGN.md §7 C18"),
-    # id: (technique, level text, level note, design_ref)
+            "Hundreds to thousands of generated EnumString enums over the whole attribute space, each driven with 1-3k inputs (declared spellings, all/sampled case flips, one-edit neighbours, padded, disabled/default names, re-cased identifiers, look-alikes, random, 4 KiB); every from_str and try_from result (variant, payload, error) is compared with an independent reference parser; sampled events are re-checked by a second python implementation.",
+            "Not exhaustive over programs/strings; trusts std derives and the generator's rendering; spelling non-overlap is enforced by the generator."),
+    "C02": ("runtime monitor: print->parse round trip on generated enums, expected values built by the generator",
+            "Grid over none+16 styles x derive sets x attribute shapes plus seeded random enums (incl. use_phf ones): for every enabled non-default variant and several payloads, parsing what Display/AsRefStr/IntoStaticStr print and every get_serializations() string must return the variant with default payload; serializations compared as a set with the model.",
+            "Not exhaustive over programs; std derives trusted."),
+    "C03": ("runtime monitor: every string-producing derive vs canonical-name model, twin renderings for conflicting derives",
+            "Systematic grid (longest serialize literal in every position, prefix none/empty/ASCII/non-ASCII, none+16 styles, const_into_str on/off) plus seeded enums, each rendered with Display+AsRefStr+IntoStaticStr+VariantNames and with deprecated ToString+AsStaticStr+EnumVariantNames; every printer on every sample value, VARIANTS[i], and const into_str() in a const item must equal the model's canonical name.",
+            "Literal sets with ambiguous 'longest' (bytes vs chars, ties) are excluded because the property does not pin them."),
     "C04": ("runtime monitor: generated enum corpus, list oracle vs reference model",
-            "Every generated enum (all disabled masks up to n=6/7, all variant kinds, type/const generics, seeded random "
-            "enums up to 300 variants) is compiled against the current tree and its iterator is observed; collect, rev, "
-            "next_back loop, COUNT, count() and len() are each compared with the model list built by the generator.",
-            "Trusts rustc/std derives for Debug/PartialEq and the generator's rendering; not exhaustive over programs.",
-            "DESIGN.md §7 C04"),
+            "Every generated enum (all disabled masks up to n=6/7, all variant kinds, type/const generics, seeded random enums up to 300 variants) is compiled against the current tree and its iterator observed; collect, rev, next_back loop, COUNT, count() and len() are each compared with the model list built by the generator.",
+            "Trusts std derives for Debug/PartialEq and the generator's rendering; not exhaustive over programs."),
     "C05": ("runtime monitor: exhaustive bounded call histories in lock-step with std::vec::IntoIter, debug+release",
-            "All call sequences over {next,next_back,clone,nth(k),nth_back(k)} incl. k=usize::MAX up to depth 3-5 for "
-            "N=0..8 (with/without disabled variants), every call compared (item, len, size_hint, no panic, fused) with "
-            "vec::IntoIter in debug and release builds; adapter probes; Send+Sync observed at the compiler boundary.",
-            "Bounded depth; vec::IntoIter trusted as the reference; Send/Sync part is a compile-outcome observation.",
-            "DESIGN.md §7 C05"),
+            "All call sequences over {next,next_back,clone,nth(k),nth_back(k)} incl. k=usize::MAX up to depth 3-5 for N=0..8 (with/without disabled variants), every call compared (item, len, size_hint, no panic, fused) with vec::IntoIter in debug and release builds; seeded random walks; skip/step_by/rev/take adapters; Send+Sync observed at the compiler boundary.",
+            "Bounded depth; vec::IntoIter trusted as the reference; Send/Sync part is a compile-outcome observation."),
+    "C06": ("runtime monitor: exhaustive discriminant sweep for 8/16-bit reprs, boundary+random sweep for wider ones, model cross-checked against rustc ground truth",
+            "Enums over all 11 repr choices with explicit (negative, hex, arithmetic, shift, bit-op, named-constant, MIN/MAX) and implicit discriminants, every disabled placement, all kinds and generics: from_repr(d) for every d of u8/i8/u16/i16 and boundary/random d for wider types is compared with the model of rustc's numbering, itself checked against `v as R` / tag reads on every run; parameter type and const evaluation observed at the compiler boundary.",
+            "No-repr enums use only untyped literal discriminant expressions; wider reprs are sampled, not exhausted."),
+    "C07": ("runtime monitor: exhaustive identifier enumeration x all style strings, model conversion vs six derives",
+            "Every identifier up to length 4 (quick) / 5 (thorough) over {a,b,A,B,1,_} plus a dictionary (acronyms, digits, underscores, non-ASCII) under none+16 style strings, bucketed into collision-free enums deriving VariantNames, Display, AsRefStr, IntoStaticStr, EnumString, EnumMessage; names, parse of expected/raw/other-style spellings and case-insensitive variants are compared with the model.",
+            "The model's word segmentation restates the documented rule (digits inherit the case class of the preceding letter)."),
+    "C08": ("runtime monitor: four list-describing derives vs model lists and against each other position-wise",
+            "All disabled masks up to n=5/7 plus seeded enums (generics, explicit discriminants, naming attributes, duplicate canonical names): COUNT, iter(), VariantNames::VARIANTS, VariantArray::VARIANTS vs model lists, and without disabled variants VARIANTS[i]==iter().nth(i) and names[i]==VARIANTS[i].to_string()/as_ref().",
+            "Not exhaustive over programs."),
+    "C09": ("runtime monitor: generated enums in a private module, discriminant conversions vs model and rustc ground truth, compile-outcome probes for visibility",
+            "Seeded enums over kinds, generics/lifetimes/where-clauses, reprs (incl. align), explicit discriminants on unit and data variants, name/vis/derive/pass-through attributes: From<&E>, From<E>, discriminant(), `d as R` for default and non-default payloads; requested derives exercised (EnumIter list, Display/AsRefStr/VariantNames/EnumString under passed-through style, Hash, Ord); size/align mirror repr; nameability from the parent module; four compile-fail visibility probes.",
+            "Visibility restrictions are observed through compile outcomes."),
+    "C10": ("runtime monitor: exhaustive write histories against an array model, all Option/Result masks",
+            "Field-less enums with every disabled mask (n<=5/6) plus seeded larger ones: all write sequences to depth 2-4 over all keys x 2 unique values with whole-table comparison and clone-independence after every write, random walks, new/filled/from_closure (call log)/transform, all() and all_ok() over ALL 2^n masks with distinct error ids, panics on disabled keys leave the table unchanged.",
+            "Bounded history depth; Vec<u64> model trusted."),
+    "C11": ("runtime monitor: reference parser decides unclaimed inputs; capture, print round trip and format-spec grid vs the inner value",
+            "Default-variant enums (tuple/named, String/Box<str>/newtype) among ordinary and case-insensitive variants driven with C01's hostile inputs: captured value == input, to_string() == input, format grid equals the grid on the input; transparent enums over 9 inner types: format!(spec, v) == format!(spec, inner) for ~2.5k specs incl. flags, as_ref / <&'static str>::from equal the inner's.",
+            "std formatting of the inner value is the reference."),
+    "C12": ("runtime monitor: exhaustive 2^k case-flip and Unicode look-alike inputs against a hand-written ASCII-fold reference parser",
+            "Systematic grid {enum flag} x {variant flag absent/bare/=true/=false} x spelling classes (ASCII, non-ASCII, Kelvin/long-s/dotless-i/sharp-s) plus seeded random enums; all 2^k flips (k<=10 quick, 12 thorough) of every spelling, look-alike substitutions and Unicode case mappings are parsed and compared with the reference parser.",
+            "Flip sets are exhaustive only up to k letters per spelling; look-alike table is finite."),
+    "C13": ("runtime monitor: every sample value against every generated method, names from the model's snakify",
+            "Seeded enums over kinds, 0..3 tuple fields (distinct and repeated types), generics/lifetimes/where-clauses with associated types, identifiers with several digit runs, disabled variants at every position: is_* partition, try_as_*/_ref/_mut Some exactly for the own variant with fields in order (Debug compare with the constructed payload), writes through &mut re-read.",
+            "Debug rendering is the observation channel for payloads."),
+    "C14": ("runtime monitor: four getters on every variant value vs model texts",
+            "Systematic grid (0..4 doc attributes in ///, #[doc], /** */ forms x message/detailed presence x disabled position x kinds) plus seeded enums with hostile texts, prefix and styles: get_message, get_detailed_message, get_documentation, get_serializations compared with the model for every variant incl. disabled ones.",
+            "Assumes rustc's doc-comment desugaring."),
+    "C15": ("runtime monitor: all declared keys and variations through three getters vs model maps",
+            "Seeded enums with 0..6 props in 1..3 groups, keys shared across variants and value types, keyword keys, disabled variants with props, extreme ints: every declared key plus case/prefix/suffix variations, empty and random keys through get_str/get_int/get_bool on every value of every variant.",
+            "Not exhaustive over key strings."),
+    "C16": ("runtime monitor: plain/use_phf twins, both against the same reference parser on the same inputs; compile outcome of the twin",
+            "Field-less enums (C12 grid + seeded; lower/upper/caseless/non-ASCII/empty spellings, both case-insensitivity levels, disabled, fold-equal aliases, optional default variant) rendered with and without use_phf against strum built with the phf feature: the phf twin must compile and both parsers must agree with the reference parser on every input.",
+            "Equality of both twins with one model implies equality with each other; domain = non-overlapping spellings."),
+    "C17": ("runtime monitor: format-spec grid vs std's own str formatting; placeholder literals vs generator-emitted format!",
+            "Fixed names of unit/tuple/named variants (multi-byte names, prefix, styles, field names incl. f) under fill x align x width 0..16 x precision none/0..8 plus sign/#/0 flags (~2.5k specs per value) compared with format!(spec, canonical str); placeholder variants (all field orders, subsets, repeats, nested specs, escaped braces, extreme payloads) compared with format!(literal, fields..).",
+            "std formatting is the reference by definition of the property."),
+    "C18": ("runtime monitor: logging user error function + reference parser; error value and call log checked per input",
+            "Random enums without default variant with custom error types (plain, module path, generic, boxed dyn Error) and a control group; for every input the Err value must equal f(s) for the exact input and the function's call log must be [s] on rejection and empty on acceptance; includes use_phf enums; associated error types checked by annotation.",
+            "Call log is thread-local inside the corpus's own function; not exhaustive over inputs."),
+    "C19": ("compile-outcome monitor: differential compilation of generated programs under no_std / renamed crate / shadowed core+std",
+            "Three enum families covering all 15 non-deprecated derives and their attribute-dependent template arms are compiled under the std baseline, #![no_std] without alloc (strum with default features off), strum reachable only as a renamed extern (direct and nested re-export path) and with local core/std/alloc modules; whatever compiles under the baseline must compile everywhere; the renamed configuration is sanity-checked to really reject a hard-coded ::strum.",
+            "rustc name resolution is the judge; observations are compile outcomes (E-macro executions), nothing is run."),
+    "C20": ("compile-outcome monitor: rule x derive matrix of malformed items, diagnostics attributed per item",
+            "Every rejection rule instantiated on every derive it applies to (must-reject) and on all other derives (panic oracle), several positions/forms each: batches of 60 items, diagnostics grouped per item by primary span; no derive panic/ICE anywhere; every must-reject item needs an error inside the item, else it is recompiled alone and a clean compile is 'silently accepted'.",
+            "rustc's JSON diagnostics (level, message, primary span) are the observation channel."),
 }
 
 def main():
@@ -45,7 +73,8 @@ def main():
     for p in props:
         pid = p["id"]
         if pid in CLAIMED and os.path.exists(os.path.join(HERE, "vf", "props", pid.lower() + ".py")):
-            tech, text, note, ref = CLAIMED[pid]
+            tech, text, note = CLAIMED[pid]
+            ref = "DESIGN.md §7 %s" % pid
             checks.append({
                 "property_id": pid,
                 "quick_cmd": "./check %s --tier quick" % pid,
